@@ -65,7 +65,7 @@ func HC15_Reset() {
 		rec := &hRec{x: x, subs: event.All}
 		x.w.SetListener(rec)
 		x.rec = rec
-		steps := 2
+		steps := 2 - c // the second cycle is followed by one fixed-argument operation
 		for s := 0; s < steps; s++ {
 			rec.n = 0
 			before := x.snap()
